@@ -285,3 +285,7 @@ Proof.
     replace (N.to_nat av) with (N.to_nat n - N.to_nat (n - av))%nat by lia.
     apply firstn_skipn_eq. exact H.
 Qed.
+
+Theorem dict_decode_into_cap z n cap :
+  N.of_nat (length (dec_stores (dict_decode_into z n cap))) <= cap.
+Proof. apply dict_decode_into_safe. Qed.
